@@ -220,6 +220,18 @@ pub fn gen_c14(out: &mut impl Write, seed: u64, thorough: bool) {
         let long3 = format!("[\"{}\",{{\"n\":1}},\"{}\"]", "c".repeat(4096), "d".repeat(129)).into_bytes();
         let mut bases = bases;
         bases.push(&long1); bases.push(&long2); bases.push(&long3);
+        // strings whose last character is an escape (a scanner that looks one byte back mistakes `\\"` for `\"`), escapes of
+        // every kind, brackets and quotes inside strings, and nesting depths around the usual limits
+        let esc: Vec<&[u8]> = vec![br#"{"kid":"C:\\keys\\"}"#, br#""a\\""#, br#"["\\\\","x"]"#, br#"{"a":"\"","b":"]}"}"#, br#"{"a\\":"\u005c"}"#, br#"{"k":"\u00e9\ud83d\ude00\n\t\/"}"#, br#"["[","{","\"]"]"#];
+        for e in &esc { bases.push(e); }
+        let deeps: Vec<Vec<u8>> = [16usize, 32, 33, 64, 100, 127, 128, 129].iter().map(|&d| {
+            let mut v: Vec<u8> = std::iter::repeat(b'[').take(d).collect(); v.extend(std::iter::repeat(b']').take(d)); v
+        }).collect();
+        for d in &deeps { bases.push(d); }
+        let deepo: Vec<Vec<u8>> = [31usize, 33, 90].iter().map(|&d| {
+            let mut v: Vec<u8> = vec![]; for _ in 0..d { v.extend_from_slice(b"{\"a\":"); } v.push(b'1'); v.extend(std::iter::repeat(b'}').take(d)); v
+        }).collect();
+        for d in &deepo { bases.push(d); }
         let tails: Vec<&[u8]> = vec![b"", b" ", b"\n", b"\t\r\n ", b"x", b"{}", b",", b"\0", b"\0\0\0\0", b"}", b"]", b" {}", b"\xef\xbb\xbf", b"//c", b"garbage"];
         let heads: Vec<&[u8]> = vec![b"", b" ", b"\n\t", b"\xef\xbb\xbf", b"x", b","];
         for b in &bases {
